@@ -31,7 +31,7 @@ pub fn info() -> PropInfo {
         id: "C11",
         run,
         replay,
-        rule: "cases = (tag content 't'+s, XML/HTML mode, duplicate checking on/off, iterator from Attributes::new/html or from a start event read by the reader). Enumerated: every s up to length N over {space, tab, =, \", ', a, b, /}; generated: attribute lists (1-7 attributes, both quote kinds, arbitrary spacing, values with blanks/other quote/=/>) with injected faults (missing '=', missing value, unquoted value, unterminated quote, repeated key), also faults after faults. The reference model predicts every item (key bytes, value bytes, error variant and positions) and the iterator must then return None on three further calls. Non-trivial = at least two attributes of which at least one is faulty and at least one well-formed one comes after a faulty one. Keys / values up to 80 bytes and lists of 20..50 attributes occur; in a third of the generated cases the current setting is asserted again with with_checks(current) before chosen next() calls, which must not change anything.",
+        rule: "cases = (tag content 't'+s, XML/HTML mode, duplicate checking on/off, iterator from Attributes::new/html or from a start event read by the reader). Enumerated: every s up to length N over {space, tab, =, \", ', a, b, /}; generated: attribute lists (1-7 attributes, both quote kinds, arbitrary spacing, values with blanks/other quote/=/>) with injected faults (missing '=', missing value, unquoted value, unterminated quote, repeated key), also faults after faults. The reference model predicts every item (key bytes, value bytes, error variant and positions) and the iterator must then return None on three further calls. Non-trivial = at least two attributes of which at least one is faulty and at least one well-formed one comes after a faulty one. Keys / values up to 80 bytes and lists of 20..50 attributes occur; in a third of the generated cases the current setting is asserted again with with_checks(current) before chosen next() calls, which must not change anything. Keys include ones that start with or contain multi-byte characters (two of them sharing their first byte), also as the repeated key.",
         assumptions: &["a '=' in key-start position (e.g. `t =x`) is an undocumented input class: only totality and termination are checked there (counted as excluded: ambiguous-eq-at-key-start)", "keys that take part in duplicate detection are the keys that were followed by '=' plus, in HTML mode, value-less keys"],
         level: "exploration",
         variants: &["full"],
@@ -166,6 +166,8 @@ const KEYS: &[&str] = &[
     // long keys (block-wise scanners), keys that share long prefixes
     "k234567890123456", "k2345678901234567", "a-key-that-is-longer-than-thirty-two-bytes", "a-key-that-is-longer-than-thirty-two-bytez",
     "k0", "k1", "k2", "k3", "k4", "k5", "k6", "k7", "k8", "k9", "k10", "k11", "k12", "k13", "k14", "k15", "k16", "k17", "k18", "k19",
+    // keys that start with / contain multi-byte characters (two of them share their first byte)
+    "\u{e9}", "\u{e9}t\u{e9}", "\u{43a}\u{43b}\u{44e}\u{447}", "\u{65e5}\u{672c}", "k\u{e9}", "\u{e8}",
 ];
 const SPACES: &[&str] = &["", "", " ", "\t", " \n "];
 const VALUES: &[&str] = &[
@@ -227,7 +229,7 @@ fn render(attrs: &[GenAttr]) -> String {
 }
 
 fn attr_strategy() -> impl Strategy<Value = GenAttr> {
-    (prop_oneof![3 => 0u8..8, 1 => 8u8..32], 0u8..5, 0u8..5, 0u8..2, prop_oneof![4 => 0u8..12, 1 => 12u8..17], prop_oneof![6 => Just(0u8), 1 => Just(1u8), 1 => Just(2u8), 1 => Just(3u8), 1 => Just(4u8)], 0u8..6).prop_map(|(key, sp1, sp2, quote, value, fault, lead)| GenAttr { key, sp1, sp2, quote, value, fault, lead })
+    (prop_oneof![6 => 0u8..8, 2 => 8u8..32, 1 => 32u8..38], 0u8..5, 0u8..5, 0u8..2, prop_oneof![4 => 0u8..12, 1 => 12u8..17], prop_oneof![6 => Just(0u8), 1 => Just(1u8), 1 => Just(2u8), 1 => Just(3u8), 1 => Just(4u8)], 0u8..6).prop_map(|(key, sp1, sp2, quote, value, fault, lead)| GenAttr { key, sp1, sp2, quote, value, fault, lead })
 }
 
 fn run(ctx: &Ctx) {
